@@ -471,6 +471,39 @@ fn run_faultwrite(st: &State, t: &mut Toks) -> PResult<String> {
 }
 
 
+/// a reader that hands out at most one octet per read() call (Read + Seek over an in-memory buffer)
+struct Dribble(Cursor<Vec<u8>>);
+impl std::io::Read for Dribble {
+    fn read(&mut self, b: &mut [u8]) -> std::io::Result<usize> {
+        let n = b.len().min(1);
+        self.0.read(&mut b[..n])
+    }
+}
+impl std::io::Seek for Dribble {
+    fn seek(&mut self, p: std::io::SeekFrom) -> std::io::Result<u64> {
+        self.0.seek(p)
+    }
+}
+
+fn decoded_obs(r: std::result::Result<diameter::Result<DiameterMessage>, String>) -> String {
+    match r {
+        Ok(Ok(m)) => {
+            let mut out = String::from("OK ");
+            // a returned message must be displayable, inspectable and re-encodable
+            let shown = catch_unwind(AssertUnwindSafe(|| format!("{}", m).len() + format!("{:?}", m.get_avps().len()).len()));
+            if let Err(e) = shown {
+                let s = e.downcast_ref::<String>().cloned().or_else(|| e.downcast_ref::<&str>().map(|s| s.to_string())).unwrap_or_else(|| "panic".into());
+                return format!("PANIC while formatting the returned message for display: {}", s.replace('\n', " "));
+            }
+            obs_msg(&mut out, &m);
+            enc_obs(&mut out, &m);
+            out
+        }
+        Ok(Err(_)) => "ERR".into(),
+        Err(p) => format!("PANIC {}", p.replace('\n', " ")),
+    }
+}
+
 fn run_decode(st: &State, t: &mut Toks) -> PResult<String> {
     let dict = st
         .dicts
@@ -478,25 +511,46 @@ fn run_decode(st: &State, t: &mut Toks) -> PResult<String> {
         .ok_or_else(|| "unknown dict".to_string())?
         .clone();
     let bytes = t.bytes()?;
-    match decode_isolated(bytes, dict) {
-        Ok(Ok(m)) => {
-            let mut out = String::from("OK ");
-            // a returned message must be displayable, inspectable and re-encodable
-            obs_msg(&mut out, &m);
-            enc_obs(&mut out, &m);
-            Ok(out)
-        }
-        Ok(Err(_)) => Ok("ERR".into()),
-        Err(p) => Ok(format!("PANIC {}", p.replace('\n', " "))),
-    }
+    Ok(decoded_obs(decode_isolated(bytes, dict)))
 }
 
-fn leaf_dec(t: &mut Toks) -> PResult<String> {
+/// XO <dict> <k> <frame>: the frame sits k octets into the reader (junk before it, position set to k);
+/// XD <dict> <frame>: the reader hands out one octet per read() call.  Both must behave exactly like X.
+fn run_decode_variant(st: &State, t: &mut Toks, dribble: bool) -> PResult<String> {
+    let dict = st.dicts.get(t.next()?).ok_or_else(|| "unknown dict".to_string())?.clone();
+    let k = if dribble { 0 } else { t.usize_dec()? };
+    let bytes = t.bytes()?;
+    let r = catch_unwind(AssertUnwindSafe(|| {
+        let mut buf = vec![0xa5u8; k];
+        buf.extend_from_slice(&bytes);
+        let mut cur = Cursor::new(buf);
+        cur.set_position(k as u64);
+        if dribble {
+            let mut d = Dribble(cur);
+            DiameterMessage::decode_from(&mut d, dict)
+        } else {
+            DiameterMessage::decode_from(&mut cur, dict)
+        }
+    }));
+    Ok(decoded_obs(r.map_err(|e| {
+        e.downcast_ref::<String>().cloned().or_else(|| e.downcast_ref::<&str>().map(|s| s.to_string())).unwrap_or_else(|| "panic".into())
+    })))
+}
+
+/// LEAFDEC decodes from a Cursor; LEAFDECD through a reader that hands out one octet per read() call
+fn leaf_dec(t: &mut Toks, dribble: bool) -> PResult<String> {
+    if !dribble {
+        return leaf_dec_from(t, |b| Cursor::new(b), |c| c.position() as usize);
+    }
+    leaf_dec_from(t, |b| Dribble(Cursor::new(b)), |d| d.0.position() as usize)
+}
+
+fn leaf_dec_from<R: std::io::Read + std::io::Seek>(t: &mut Toks, mk: impl Fn(Vec<u8>) -> R, pos: impl Fn(&R) -> usize) -> PResult<String> {
     let ty = t.next()?.to_string();
     let vl = t.u64()? as usize;
     let bytes = t.bytes()?;
     let total = bytes.len();
-    let mut cur = Cursor::new(bytes);
+    let mut cur = mk(bytes);
     let r: diameter::Result<AvpValue> = match ty.as_str() {
         "addr" => Address::decode_from(&mut cur, vl).map(Into::into),
         "ip4" => IPv4::decode_from(&mut cur).map(Into::into),
@@ -525,7 +579,7 @@ fn leaf_dec(t: &mut Toks) -> PResult<String> {
                 Ok(()) => hex(&mut out, &buf),
                 Err(_) => out.push_str("ENCERR"),
             }
-            let _ = write!(out, " {}", total - (cur.position() as usize).min(total));
+            let _ = write!(out, " {}", total - pos(&cur).min(total));
             Ok(out)
         }
         Err(_) => Ok("ERR".into()),
@@ -682,8 +736,12 @@ pub fn handle(st: &mut State, line: &str) -> String {
                 Ok(o)
             }
             "X" => run_decode(st, &mut t),
-            "LEAFDEC" => leaf_dec(&mut t),
+            "XO" => run_decode_variant(st, &mut t, false),
+            "XD" => run_decode_variant(st, &mut t, true),
+            "LEAFDEC" => leaf_dec(&mut t, false),
+            "LEAFDECD" => leaf_dec(&mut t, true),
             "LEAFENC" => leaf_enc(&mut t),
+            "SWEEP32" => sweep32(&mut t),
             "UTF8" => {
                 let b = t.bytes()?;
                 Ok(if String::from_utf8(b).is_ok() { "1".into() } else { "0".into() })
@@ -706,4 +764,69 @@ pub fn handle(st: &mut State, line: &str) -> String {
             format!("PANIC {}", s.replace('\n', " "))
         }
     }
+}
+
+/// SWEEP32 <ty> <lo> <hi>: every four-octet pattern in [lo, hi) through the library: decode, compare the value with the
+/// closed form RFC 6733 assigns (a transcription of the model's dec4: unsigned big-endian / two's complement / IEEE-754
+/// bit pattern / seconds since 1900-01-01 / dotted quad), re-encode, compare the octets.  Output: SWEPT <n> <failures> [first].
+fn sweep32(t: &mut Toks) -> PResult<String> {
+    use chrono::TimeZone;
+    let ty = t.next()?.to_string();
+    let lo = t.u64()?;
+    let hi = t.u64()?;
+    let mut bad: u64 = 0;
+    let mut first = String::new();
+    let mut fail = |p: u32, why: &str, bad: &mut u64| {
+        if *bad == 0 {
+            first = format!("{:08x}:{}", p, why);
+        }
+        *bad += 1;
+    };
+    for p64 in lo..hi {
+        let p = p64 as u32;
+        let b = p.to_be_bytes();
+        let mut cur = Cursor::new(&b[..]);
+        let mut out = Vec::with_capacity(4);
+        let ok = match ty.as_str() {
+            "u32" => match Unsigned32::decode_from(&mut cur) {
+                Ok(v) => v.value() == p && v.encode_to(&mut out).is_ok(),
+                Err(_) => false,
+            },
+            "i32" => match Integer32::decode_from(&mut cur) {
+                Ok(v) => (v.value() as i64) == (if p >= 0x8000_0000 { p as i64 - (1i64 << 32) } else { p as i64 }) && v.encode_to(&mut out).is_ok(),
+                Err(_) => false,
+            },
+            "en" => match Enumerated::decode_from(&mut cur) {
+                Ok(v) => (v.value() as i64) == (if p >= 0x8000_0000 { p as i64 - (1i64 << 32) } else { p as i64 }) && v.encode_to(&mut out).is_ok(),
+                Err(_) => false,
+            },
+            "f32" => match Float32::decode_from(&mut cur) {
+                Ok(v) => v.value().to_bits() == p && v.encode_to(&mut out).is_ok(),
+                Err(_) => false,
+            },
+            "time" => match Time::decode_from(&mut cur) {
+                Ok(v) => {
+                    let want = chrono::Utc.timestamp_opt(p as i64 - 2_208_988_800, 0).single();
+                    Some(*v.value()) == want && v.encode_to(&mut out).is_ok()
+                }
+                Err(_) => false,
+            },
+            "ip4" => match IPv4::decode_from(&mut cur) {
+                Ok(v) => {
+                    // no accessor: the dotted quad is read off the Display text, else off the Debug text
+                    let quad = format!("{}.{}.{}.{}", b[0], b[1], b[2], b[3]);
+                    let shown = format!("{}", v);
+                    (shown == quad || (shown.parse::<std::net::Ipv4Addr>().is_err() && format!("{:?}", v).contains(&quad))) && v.encode_to(&mut out).is_ok()
+                }
+                Err(_) => false,
+            },
+            s => return Err(format!("sweep ty {}", s)),
+        };
+        if !ok {
+            fail(p, "decode", &mut bad);
+        } else if out != b {
+            fail(p, "reencode", &mut bad);
+        }
+    }
+    Ok(format!("SWEPT {} {} {}", hi - lo, bad, first))
 }
